@@ -430,7 +430,10 @@ class Simulator:
         for t_end, pars in protocol.iterrows():
             t_end = cast(pd.Timedelta, t_end)
             self.model.update_parameters(pars.dropna().to_dict())
-            self.simulate(t_start + t_end.total_seconds(), steps=time_points_per_step)
+            # Timedelta.total_seconds() only resolves microseconds, the index is in ns
+            self.simulate(
+                t_start + t_end / pd.Timedelta(seconds=1), steps=time_points_per_step
+            )
             if self.variables is None:
                 break
         return self
